@@ -524,10 +524,10 @@ _UKEY = {
     "seq": re.compile(r'^"\{\\"from\\":\[(\d+,\[\[[0-9,\[\]]*?\]\]),'),
     "aln": re.compile(r'^"\{\\"from\\":\[(\[[0-9,]*\],\[[0-9,]*\],\[\[[0-9,\[\]]*?\]\],\\"[+-]\\"),'),
 }
-_NKEY = {"seq": 2, "aln": 4, "names": 3}
+_NKEY = {"seq": 2, "aln": 4, "names": 3, "stride": 2}
 _ACT = re.compile(r'\\"act\\":\\"(\w+)\\"')
 _ACTIONS = {"seq": {"Universe", "Look", "Slice", "Rc", "RevSlice", "Copy", "FeatSlice", "Degap"}, "aln": {"Universe", "Look", "Slice", "Rc"},
-            "names": {"Universe", "Look", "Slice", "Rc"}}
+            "names": {"Universe", "Look", "Slice", "Rc"}, "stride": {"Universe", "Look", "Slice", "Rc"}}
 
 
 def split_by_universe(emit, scratch, name, level):
@@ -541,7 +541,7 @@ def split_by_universe(emit, scratch, name, level):
                 continue
             a = _ACT.search(line)
             acts[a.group(1) if a else "?"] += 1
-            m = _UKEY[level].match(line) if level in _UKEY else None
+            m = _UKEY["seq" if level == "stride" else level].match(line) if level in _UKEY or level == "stride" else None
             if m is None:
                 r = json.loads(line)
                 r = json.loads(r) if isinstance(r, str) else r
@@ -583,7 +583,7 @@ class TlcJob:
         self.name, self.level = name, level
         self.emit = scratch / f"emit-{name}.ndjson"
         self.res = self.err = None
-        spec = {"seq": "Annotation", "aln": "AnnotationAln", "hist": "AnnotationHistory", "names": "AnnotationNames"}[level]
+        spec = {"seq": "Annotation", "aln": "AnnotationAln", "hist": "AnnotationHistory", "names": "AnnotationNames", "stride": "AnnotationStride"}[level]
 
         def work():
             try:
@@ -745,6 +745,8 @@ def check(run: Run):
             ("hist", "MC_Annotation_hist_quick.cfg", "hist", float(env("VERIF_C04_HIST", "0.25")), 0),
             # look-alike sequence names / feature names / biotypes in one shared db: a seeded sample of the queries of every view
             ("names", "MC_Annotation_names.cfg", "names", 0, float(env("VERIF_C04_NAMES", "0.25"))),
+            # strided views seq[a:b:k], k = 1..3, rc of them, strided slices of slices: every state, a seeded sample of the other histories
+            ("stride", "MC_Annotation_stride_quick.cfg", "stride", float(env("VERIF_C04_STRIDE", "0.03")), 0),
         ]
     else:
         plan = [
@@ -757,6 +759,7 @@ def check(run: Run):
             # every interleaving of 4 calls: a seeded sample of the histories (all of depth <= 3 are in the quick configuration)
             ("hist", "MC_Annotation_hist_thorough.cfg", "hist", float(env("VERIF_C04_HIST", "0.07")), 0),
             ("names", "MC_Annotation_names.cfg", "names", 0, 1.0),
+            ("stride", "MC_Annotation_stride_thorough.cfg", "stride", float(env("VERIF_C04_STRIDE", "0.03")), 0),
         ]
     # share of the states on which the feature algebra / masking is exercised as well
     alg_rates = {"views": float(env("VERIF_C04_ALGEBRA", "0.12" if tier == "quick" else "0.05")), "small": float(env("VERIF_C04_ALGEBRA", "0.5")),
@@ -766,7 +769,7 @@ def check(run: Run):
         plan = [p for p in plan if p[0] in only.split(",")]
     with Scratch("C04") as scratch:
         # all model-checking runs start now (they share the TLC worker budget) and are replayed in order as they finish
-        share = ({"small": 1, "views": 2, "aln": 3, "hist": 1, "names": 1} if tier == "thorough" else {"views": 3, "aln": 2, "hist": 2, "names": 1}) if len(plan) >= 3 else {}
+        share = ({"small": 1, "views": 2, "aln": 2, "hist": 1, "names": 1, "stride": 1} if tier == "thorough" else {"views": 3, "aln": 2, "hist": 1, "names": 1, "stride": 1}) if len(plan) >= 3 else {}
         jobs = [TlcJob(scratch, name, cfg, level, share.get(name, max(2, NPROC // len(plan)))) for name, cfg, level, _, _ in plan]
         try:
             for job, (_, _, level, er, wr) in zip(jobs, plan):
